@@ -101,8 +101,10 @@ func (d *direct) SendInstallSnapshot(a string, q raft.InstallSnapshotRequest) (r
 }
 
 type fsm struct {
-	mu  sync.Mutex
-	ops int
+	mu   sync.Mutex
+	ops  int
+	snap bool          // NeedSnapshot answers true once the log holds 4 entries
+	slow chan struct{} // non-nil: Restore blocks until it is closed (a slow state machine)
 }
 
 func (f *fsm) Apply(op *raft.Operation) interface{} {
@@ -113,9 +115,32 @@ func (f *fsm) Apply(op *raft.Operation) interface{} {
 	}
 	return f.ops
 }
-func (f *fsm) Snapshot(w io.Writer) error { _, err := w.Write([]byte{byte(f.ops)}); return err }
-func (f *fsm) Restore(r io.Reader) error  { _, err := io.ReadAll(r); return err }
-func (f *fsm) NeedSnapshot(int) bool      { return false }
+func (f *fsm) Snapshot(w io.Writer) error {
+	f.mu.Lock()
+	defer f.mu.Unlock()
+	_, err := w.Write([]byte{byte(f.ops)})
+	return err
+}
+func (f *fsm) Restore(r io.Reader) error {
+	f.mu.Lock()
+	gate := f.slow
+	f.mu.Unlock()
+	if gate != nil {
+		<-gate
+	}
+	b, err := io.ReadAll(r)
+	f.mu.Lock()
+	if len(b) > 0 {
+		f.ops = int(b[0])
+	}
+	f.mu.Unlock()
+	return err
+}
+func (f *fsm) NeedSnapshot(size int) bool {
+	f.mu.Lock()
+	defer f.mu.Unlock()
+	return f.snap && size >= 4
+}
 
 const futureTimeout = 1500 * time.Millisecond
 
@@ -123,6 +148,7 @@ const futureTimeout = 1500 * time.Millisecond
 func child(prog string, nnodes int, dir string) {
 	nw := &net{nodes: map[string]*direct{}}
 	var nodes []*raft.Raft
+	var fsms []*fsm
 	members := map[string]string{}
 	for i := 0; i < nnodes; i++ {
 		members[strconv.Itoa(i)] = "a" + strconv.Itoa(i)
@@ -131,7 +157,8 @@ func child(prog string, nnodes int, dir string) {
 		id := strconv.Itoa(i)
 		t := &direct{n: nw, addr: "a" + id}
 		nw.nodes[t.addr] = t
-		r, err := raft.NewRaft(id, t.addr, &fsm{}, fmt.Sprintf("%s/n%d", dir, i), raft.WithTransport(t),
+		fsms = append(fsms, &fsm{})
+		r, err := raft.NewRaft(id, t.addr, fsms[i], fmt.Sprintf("%s/n%d", dir, i), raft.WithTransport(t),
 			raft.WithElectionTimeout(40*time.Millisecond), raft.WithHeartbeatInterval(10*time.Millisecond),
 			raft.WithLeaseDuration(20*time.Millisecond), raft.WithLogLevel(logging.Fatal))
 		if err != nil {
@@ -166,6 +193,44 @@ func child(prog string, nnodes int, dir string) {
 			say("bootstrap -> %v", n0.Bootstrap(members) != nil)
 		case "badbootstrap":
 			say("badbootstrap -> %v", n0.Bootstrap(map[string]string{"zz": "nowhere"}) != nil)
+		case "snapshots": // the other nodes snapshot and compact from now on
+			for i := 1; i < len(fsms); i++ {
+				fsms[i].mu.Lock()
+				fsms[i].snap = true
+				fsms[i].mu.Unlock()
+			}
+		case "others": // N operations through whichever other node leads
+			n, _ := strconv.Atoi(f[1])
+			done := 0
+			deadline := time.Now().Add(5 * time.Second)
+			for done < n && time.Now().Before(deadline) {
+				progressed := false
+				for i := 1; i < nnodes; i++ {
+					if nodes[i].Status().State == raft.Leader {
+						if res := nodes[i].SubmitOperation([]byte("y"), raft.Replicated, futureTimeout).Await(); res.Error() == nil {
+							done++
+							progressed = true
+						}
+					}
+				}
+				if !progressed {
+					time.Sleep(20 * time.Millisecond)
+				}
+			}
+			say("others %d -> %d acknowledged", n, done)
+		case "slowrestore":
+			fsms[0].mu.Lock()
+			if fsms[0].slow == nil {
+				fsms[0].slow = make(chan struct{})
+			}
+			fsms[0].mu.Unlock()
+		case "fastrestore":
+			fsms[0].mu.Lock()
+			if fsms[0].slow != nil {
+				close(fsms[0].slow)
+				fsms[0].slow = nil
+			}
+			fsms[0].mu.Unlock()
 		case "hold":
 			nw.mu.Lock()
 			if nw.held == nil {
@@ -242,6 +307,33 @@ func child(prog string, nnodes int, dir string) {
 			}
 		}
 	}
+	// a running node keeps applying what it knows to be committed (nothing may have stalled its apply loop)
+	nw.mu.Lock()
+	if nw.held != nil {
+		close(nw.held)
+		nw.held = nil
+	}
+	nw.mu.Unlock()
+	fsms[0].mu.Lock()
+	if fsms[0].slow != nil {
+		close(fsms[0].slow)
+		fsms[0].slow = nil
+	}
+	fsms[0].mu.Unlock()
+	if st := n0.Status(); st.State != raft.Shutdown {
+		deadline := time.Now().Add(3 * time.Second)
+		for time.Now().Before(deadline) {
+			st = n0.Status()
+			if st.State == raft.Shutdown || st.LastApplied >= st.CommitIndex {
+				break
+			}
+			time.Sleep(20 * time.Millisecond)
+		}
+		if st.State != raft.Shutdown && st.LastApplied < st.CommitIndex {
+			say("VIOLATION the node stopped applying: lastApplied %d stays below commitIndex %d", st.LastApplied, st.CommitIndex)
+			bad++
+		}
+	}
 	if bad > 0 {
 		os.Exit(5)
 	}
@@ -280,6 +372,9 @@ var scripted = []string{
 	"start;stop;bootstrap;status;config",
 	"start;bootstrap;sleep 300;status;submit 0;sleep 300;status;config",
 	"start;sleep 50;bootstrap;restart;sleep 300;status;submit 0;stop;bootstrap;status",
+	// node 0 falls behind, is sent a snapshot while its Restore is slow, is stopped during the Restore and started again
+	"bootstrap;start;sleep 200;stop;snapshots;others 8;slowrestore;start;sleep 200;stop;fastrestore;sleep 50;start;sleep 300;others 3;sleep 200;status",
+	"bootstrap;start;sleep 200;stop;snapshots;others 8;start;sleep 300;others 3;sleep 200;status;submit 0",
 	// the network holds the node's AppendEntries requests back (no answer, no error): every call must still return
 	"bootstrap;start;sleep 200;status;hold;sleep 60;submit 0;stop;status;release;sleep 50;status",
 	"bootstrap;start;sleep 200;hold;sleep 60;add %d 0;stop;start;sleep 100;status;release;sleep 100;submit 0;status",
